@@ -143,6 +143,8 @@ def build_matrix(spec, n, cplx):
         den = float(spec.get("den", 1))
         m = (b @ b.conj().T) / den ** 2 + float(spec["shift"]) * np.eye(n)
         m = m * float(spec.get("sign", 1))
+    elif k == "identity":            # A = I handed over as an operator that RETURNS ITS ARGUMENT (Identity / lambda v: v)
+        m = np.eye(n) + (0j if cplx else 0.0)
     elif k == "herm":                # (M + M^H) / den with integer M: generic indefinite, explicit
         b = np.array(spec["re"], dtype=np.float64).reshape(n, n)
         if cplx and spec.get("im") is not None:
@@ -299,6 +301,8 @@ def _ratio_label(q):
 
 @st.composite
 def st_matrix_pd(draw, n):
+    if draw(st.sampled_from([False] * 11 + [True])):
+        return {"kind": "identity", "form": draw(st.sampled_from(["alias", "Identity"]))}
     if n <= 4 and draw(st.integers(0, 3)) == 0:
         cols = draw(st.integers(1, n))
         ints = st.lists(st.integers(-4, 4), min_size=n * cols, max_size=n * cols)
@@ -423,7 +427,9 @@ def check_case(case):
     b_in = _in_layout(b.reshape(shape).copy(), case.get("xlayout", "c"))
     if case.get("xlayout", "c") != "c":
         r.label("x-layout:" + case["xlayout"])
-    Aop = _wrap(Am, case["Aform"], case["col"], n)
+    Aop = _wrap(Am, case["A"].get("form") or case["Aform"], case["col"], n)
+    if case["A"].get("form"):
+        r.label("A-identity:" + case["A"]["form"])
     Pop = _wrap(Pm, case["P"].get("form") or case["Pform"], case["col"], n)
     if case["P"].get("form"):
         r.label("P-identity:" + case["P"]["form"])
@@ -539,7 +545,7 @@ def check_case(case):
 
     # ---- classes, non-triviality, signature
     spec = case["A"]
-    cls = spec["spectrum"] if spec["kind"] == "eig" else "explicit"
+    cls = spec["spectrum"] if spec["kind"] == "eig" else ("identity" if spec["kind"] == "identity" else "explicit")
     clustered = m_eff < n and case["P"]["kind"] == "none"
     r.label("A:" + cls, "P:" + case["P"]["kind"],
             "dtype:" + ("complex" if cplx else ("real-A-complex-b" if case.get("rhs_cplx") else "real")),
